@@ -161,6 +161,24 @@ CHECKS['C16'] = dict(
          'never modifies the node.',
     design='4 C16')
 
+CHECKS['C07'] = dict(
+    technique='bounded-exhaustive enumeration of plain-data trees x formatting '
+              'options + Hypothesis-generated values, judged by two strict '
+              'JSON parsers (validity predicate), comparison with the JSON '
+              'projection (reference model) and a JSON->load round trip',
+    text='Every plain tree with <=4 nodes (quick) / <=5 (thorough) x indent '
+         'in {None,0..8} x ensure_ascii in {True,False}, every tree one node '
+         'larger under 2/4 option pairs, and generated plain trees and class-'
+         'model values (enums, string-likes also as keys, paths, dates, '
+         'extras, sweeten hooks, _yatiml_attributes; quotes, backslashes, all '
+         'control characters, NEL/U+2028/BOM, non-BMP, lone surrogates, '
+         'extreme finite floats, big ints): output accepted by Python json '
+         '(constants rejected) and by an own RFC 8259 parser, content equal '
+         'to the JSON projection with int/float kind and order, ASCII-only '
+         'and whitespace-free by default, no escaped non-ASCII with '
+         'ensure_ascii=False, load(json) equal for printable-BMP data.',
+    design='4 C07')
+
 NOT_YET = 'check not built yet in this session (work in progress)'
 
 
